@@ -559,104 +559,7 @@ func runLoops(a *Analyzer, r *Results) {
 	if nEl == 0 || nSync == 0 {
 		r.Undecided = append(r.Undecided, fmtf("main loop: election forwards=%d sync forwards=%d (each expected >= 1)", nEl, nSync))
 	}
-	// U5: the main loop's "most recent sync" mark. It is what makes a later sync of the same or a lower block stale, so
-	// it may record a block height only once that block was really handed to the worker, and must record the very
-	// quantity the staleness test compares.
-	{
-		run := a.P.Func("(*leanhelix.MainLoop).run")
-		isMark := func(v ssa.Value) bool {
-			pt, ok := v.Type().Underlying().(*types.Pointer)
-			if !ok || typeShort(pt.Elem()) != "primitives.BlockHeight" {
-				return false
-			}
-			switch v.(type) {
-			case *ssa.FieldAddr, *ssa.IndexAddr:
-				return false
-			}
-			return true
-		}
-		// the staleness test: a comparison of the loaded mark with the incoming height
-		var compared []ssa.Value
-		for _, b := range run.Blocks {
-			for _, in := range b.Instrs {
-				bo, ok := in.(*ssa.BinOp)
-				if !ok {
-					continue
-				}
-				switch bo.Op {
-				case token.LSS, token.LEQ, token.GTR, token.GEQ:
-				default:
-					continue
-				}
-				ld := func(v ssa.Value) bool {
-					u, ok := v.(*ssa.UnOp)
-					return ok && u.Op == token.MUL && isMark(u.X)
-				}
-				if ld(bo.X) {
-					compared = append(compared, bo.Y)
-				} else if ld(bo.Y) {
-					compared = append(compared, bo.X)
-				}
-			}
-		}
-		// the hand-off calls
-		var forwards []*ssa.Call
-		for _, b := range run.Blocks {
-			for _, in := range b.Instrs {
-				if call, ok := in.(*ssa.Call); ok {
-					if isForward(&Effect{Kind: "call", Instr: call}, "leanhelix.blockWithProof") {
-						forwards = append(forwards, call)
-					}
-				}
-			}
-		}
-		nMark := 0
-		for _, b := range run.Blocks {
-			for _, in := range b.Instrs {
-				st, ok := in.(*ssa.Store)
-				if !ok || !isMark(st.Addr) {
-					continue
-				}
-				nMark++
-				okVal := false
-				for _, cv := range compared {
-					if cv == st.Val {
-						okVal = true
-					}
-				}
-				r.Check("U5.value", props("C14", "C12"), "the most-recent-sync mark records the height of the synced block, the same quantity the staleness test compares incoming syncs with", "MainLoop.run", a.P.InstrPos(in), okVal && len(compared) > 0,
-					"the stored value is not the value the staleness test compares the mark with", "N")
-				// dominated by the success edge of a hand-off
-				okOrd := false
-				for _, fw := range forwards {
-					for _, ref := range *fw.Referrers() {
-						bo, ok := ref.(*ssa.BinOp)
-						if !ok || (bo.Op != token.NEQ && bo.Op != token.EQL) {
-							continue
-						}
-						for _, r2 := range *bo.Referrers() {
-							ifi, ok := r2.(*ssa.If)
-							if !ok {
-								continue
-							}
-							succ := ifi.Block().Succs[1] // err != nil is false
-							if bo.Op == token.EQL {
-								succ = ifi.Block().Succs[0]
-							}
-							if succ == b || succ.Dominates(b) {
-								okOrd = true
-							}
-						}
-					}
-				}
-				r.Check("U5.order", props("C14", "C12"), "the most-recent-sync mark is advanced only after the block was handed to the worker successfully (a sync that was dropped as stale or not delivered must not make later syncs of that block look stale)", "MainLoop.run", a.P.InstrPos(in), okOrd,
-					"the mark is written on a path where the hand-off to the worker has not succeeded", "P")
-			}
-		}
-		if nMark == 0 {
-			r.Undecided = append(r.Undecided, "U5: the main loop has no most-recent-sync mark (anchor)")
-		}
-	}
+	runSyncMark(a, r, func(call *ssa.Call) bool { return isForward(&Effect{Kind: "call", Instr: call}, "leanhelix.blockWithProof") })
 	// worker: election arm
 	effs, und = a.effectsOf("(*leanhelix.WorkerLoop).Run", nil, false)
 	r.Undecided = append(r.Undecided, und...)
